@@ -4,7 +4,7 @@ Confirms each delivered seeded change (suite passes with it, demo fails with it,
 scratch worktree and copies it to /verif/seeded/<Cxx-k>/."""
 import json, os, re, shutil, subprocess, sys, glob
 env = dict(os.environ, GOFLAGS="-mod=mod", GOPROXY="off", GOSUMDB="off", GOTOOLCHAIN="local")
-def sh(cmd, **kw): return subprocess.run(cmd, shell=True, capture_output=True, text=True, env=env, **kw)
+def sh(cmd, **kw): return subprocess.run(cmd, shell=True, capture_output=True, text=True, errors="replace", env=env, **kw)
 prefix, first = sys.argv[1], int(sys.argv[2])
 props = sys.argv[3:] or [f"C{i:02d}" for i in range(1, 21)]
 WT = f"/tmp/seedimp-{os.getpid()}"
